@@ -246,7 +246,26 @@ mut("P20r", "conn.go", "	if c.server.MaxLineLength > 0 && len(line) > c.server.M
 mut("P21r", "conn.go", "	c.locker.Lock()\n	if c.session != nil {\n		c.session.Logout()\n		c.session = nil\n	}\n	c.locker.Unlock()\n	c.helo = \"\"", "	if session := c.Session(); session != nil {\n		session.Logout()\n		c.setSession(nil)\n	}\n	c.helo = \"\"", ["C08", "C20"], "holds:Conn.locker@Session.Logout", note="regression: STARTTLS logs out outside the critical section")
 mut("M112", "conn.go", "func (c *Conn) reset() {\n	c.locker.Lock()\n	defer c.locker.Unlock()\n\n	if c.bdatPipe != nil {", "func (c *Conn) reset() {\n	if c.bdatPipe != nil {", ["C20"], "(*Conn).reset/holds", note="reset no longer takes the connection lock")
 mut("M113", "server.go", "	s.locker.Lock()\n	s.listeners = append(s.listeners, l)\n	s.locker.Unlock()\n\n	var tempDelay", "	var tempDelay", ["C20"], "the-listener-stays-registered", note="Serve no longer registers its listener: Close/Shutdown cannot stop it (operator mutant found by tools/automut.py)")
+mut("M114", "conn.go", "		c.writeResponse(221, EnhancedCode{2, 0, 0}, \"Bye\")\n		c.Close()\n", "		c.writeResponse(221, EnhancedCode{2, 0, 0}, \"Bye\")\n", ["C08"], "quit-is-answered-221-and-ends-the-connection", note="QUIT is answered but the connection is not given up (operator mutant found by tools/automut.py)")
+mut("M115", "conn.go", "			c.writeResponse(421, EnhancedCode{4, 0, 0}, \"Internal server error\")\n			c.Close()\n", "			c.writeResponse(421, EnhancedCode{4, 0, 0}, \"Internal server error\")\n", ["C08"], "a-panic-while-handling-a-command-is-answered-421-and-the-connection-given-up", note="a panic in a command handler no longer closes the connection (operator mutant; the panicking case of recover handlers was not verified before)")
+mut("M116", "conn.go", "				if err := recover(); err != nil {\n					status.fillRemaining(&SMTPError{\n						Code:         421,\n						EnhancedCode: EnhancedCode{4, 0, 0},\n						Message:      \"Internal server error\",\n					})\n", "				if err := recover(); err != nil {\n", ["C13", "C20"], "a-recovered-panic-still-answers-every-recipient", note="LMTP DATA recover handler no longer answers the recipients: the command loop waits for ever")
+mut("M117", "conn.go", "	if status != nil {\n		status.fillRemaining(errPanic)\n	}\n\n	stack := debug.Stack()", "	stack := debug.Stack()", ["C13"], "every-recipient-of-the-given-collector-is-answered", note="handlePanic no longer answers the recipients")
+mut("M118", "conn.go", "c.bytesReceived+int64(size) > c.server.MaxMessageBytes {", "c.bytesReceived+int64(size) >= c.server.MaxMessageBytes {", ["C06"], "a-chunk-is-refused-for-size-only-when-it-takes-the-message-over-the-limit", note="a BDAT message of exactly the limit is refused (operator mutant found by tools/automut.py)")
+mut("M119", "conn.go", "			if c.server.MaxMessageBytes > 0 && int64(size) > c.server.MaxMessageBytes {", "			if c.server.MaxMessageBytes > 0 && int64(size) >= c.server.MaxMessageBytes {", ["C06"], "a-declared-size-is-refused-only-when-it-exceeds-the-limit", note="MAIL SIZE= exactly the limit is refused (operator mutant found by tools/automut.py)")
+mut("M120", "conn.go", "		if err == errPanic {\n			c.Close()\n		}\n\n		c.reset()\n		c.lineLimitReader.LineLimit = c.server.MaxLineLength\n		return", "		c.reset()\n		c.lineLimitReader.LineLimit = c.server.MaxLineLength\n		return", ["C08"], "after-a-backend-panic-the-connection-is-given-up", note="a backend panic in the middle of a BDAT chunk no longer closes the connection (operator mutant found by tools/automut.py)")
+mut("M121", "conn.go", "	if c.bdatStatus == nil && c.server.LMTP {", "	if c.bdatStatus == nil || c.server.LMTP {", ["C13"], "a-collector-is-created-for-a-new-transfer-only", note="every LMTP chunk replaces the status collector the delivery goroutine reports to (operator mutant found by tools/automut.py)")
+mut("M122", "conn.go", "		if err := c.conn.SetReadDeadline(time.Now().Add(c.server.ReadTimeout)); err != nil {", "		if err := c.conn.SetReadDeadline(time.Now().Add(c.server.ReadTimeout)); err == nil {", ["C19", "C04"], "a-line-returned-was-taken-from-the-stream", note="with a read timeout configured an empty line is made up instead of reading one (operator mutant)")
+mut("M123", "conn.go", "	if c.server.MaxLineLength > 0 && len(line) > c.server.MaxLineLength {", "	if c.server.MaxLineLength >= 0 && len(line) > c.server.MaxLineLength {", ["C19"], "a-line-that-was-read-is-refused-for-its-length-only-beyond-a-configured-limit", note="without a configured limit every line is refused as too long (operator mutant)")
+mut("M124r", "conn.go", "				if c := b[i]; (c < ' ' && c != '\\t') || c == 0x7f {\n					b[i] = '?'", "				if c := b[i]; (c <= ' ' && c != '\\t') || c == 0x7f {\n					b[i] = '?'", ["C04"], "replyText/", note="blanks behind the first control character are replaced too (operator mutant; not property-breaking by itself, pins the contract)")
 # ---------------------------------------------------------------- client.go
+mut("M124", "client.go", "		_, _, err := d.c.readResponse(250)\n		d.c.rcpts = nil\n		if err != nil {\n			return err\n		}", "		_, _, err := d.c.readResponse(250)\n		d.c.rcpts = nil\n		if err == nil {\n			return err\n		}", ["C16", "C17"], "close-returns-the-servers-verdict-on-the-message", note="the server's refusal of the message is swallowed by Close (operator mutant found by tools/automut.py)")
+mut("M125", "client.go", "		if err = c.Rcpt(addr, nil); err != nil {\n			return err\n		}\n	}\n	w, err := c.Data()", "		if err = c.Rcpt(addr, nil); err == nil {\n			return err\n		}\n	}\n	w, err := c.Data()", ["C16"], "success-means-the-message-was-written-and-its-writer-closed", note="SendMail reports success after the first accepted recipient without sending anything (operator mutant)")
+mut("M126", "client.go", "	if err := c.SendMail(from, to, r); err != nil {\n		return err\n	}\n\n	return c.Quit()", "	if err := c.SendMail(from, to, r); err == nil {\n		return err\n	}\n\n	return c.Quit()", ["C16", "C17"], "a-refused-message-is-reported", note="package-level SendMail swallows the refusal and reports QUIT's outcome (operator mutant)")
+mut("M127", "client.go", "		if err = c.Auth(a); err != nil {\n			return err\n		}\n	}\n\n	if err := c.SendMail", "		if err = c.Auth(a); err == nil {\n			return err\n		}\n	}\n\n	if err := c.SendMail", ["C16", "C17"], "sendMail/post:", note="package-level SendMail reports success right after AUTH (operator mutant)")
+mut("M128", "client.go", "	if _, _, err := c.cmd(250, \"RSET\"); err != nil {\n		return err\n	}", "	if _, _, err := c.cmd(250, \"RSET\"); err == nil {\n		return err\n	}", ["C18"], "a-reset-transaction-leaves-no-recipients-behind", note="Reset returns before forgetting the recipients, and swallows a refusal (operator mutant)")
+mut("M129", "client.go", "	c.helloError = nil\n\n	c.rcpts = nil\n	return nil", "	c.helloError = nil\n\n	return nil", ["C18"], "a-reset-transaction-leaves-no-recipients-behind", note="Reset keeps the LMTP recipients of the aborted transaction (operator mutant)")
+mut("M130", "client.go", "	_, _, err := c.cmd(221, \"QUIT\")\n	if err != nil {\n		return err\n	}", "	_, _, err := c.cmd(221, \"QUIT\")\n	if err == nil {\n		return err\n	}", ["C17"], "a-refused-quit-is-reported", note="Quit swallows the server's refusal (operator mutant)")
+mut("M131", "client.go", "	if err != nil {\n		c.greetError = err\n		c.text.Close()\n	}", "	if err != nil {\n		c.text.Close()\n	}", ["C15", "C17"], "a-refused-greeting-is-an-error", note="a refused greeting is reported as success (operator mutant)")
 mut("M111", "client.go", "	if _, ok := c.ext[\"SIZE\"]; ok && opts != nil && opts.Size != 0 {", "	if _, ok := c.ext[\"SIZE\"]; ok && opts != nil && opts.Size > 1 {", ["C14"], "every-requested-and-offered-option-is-rendered", note="SIZE=1 is not rendered")
 mut("M104", "client.go", "		if resp == nil {\n			break\n		}\n		resp64 = make([]byte, encoding.EncodedLen(len(resp)))", "		if len(resp) == 0 {\n			break\n		}\n		resp64 = make([]byte, encoding.EncodedLen(len(resp)))", ["C09"], "success-means-the-server-said-235", note="client stops the AUTH exchange on an empty (non-nil) response and reports success")
 mut("M30", "client.go", "	if d.closed {\n		return fmt.Errorf(\"smtp: data writer closed twice\")\n	}\n	d.closed = true\n", "	if d.closed {\n		return fmt.Errorf(\"smtp: data writer closed twice\")\n	}\n", ["C16"], "always-closed-afterwards", note="dataCloser never marked closed (also regression of fix 755bba6)")
